@@ -1991,6 +1991,51 @@ keycmp(const void *a, const void *b)
 	return strcmp(x->name, y->name);
 }
 
+/* keys with factors of different lengths (the fixtures are all balanced): p shorter than q by 1, a few or many bits,
+ * and the other way round; primes drawn deterministically from the harness PRNG */
+static void
+det_prime(BIGNUM *p, int bits, vf_rng *r, const BIGNUM *e)
+{
+	unsigned char buf[128];
+	BIGNUM *t = BN_new(), *g = BN_new();
+	size_t n = (size_t)(bits + 7) / 8;
+	for (;;) {
+		vf_bytes(r, buf, n);
+		BN_bin2bn(buf, (int)n, p);
+		BN_mask_bits(p, bits);
+		BN_set_bit(p, bits - 1); BN_set_bit(p, bits - 2); BN_set_bit(p, 0);
+		for (;;) {
+			if (BN_num_bits(p) != bits) break;
+			if (BN_check_prime(p, bnctx, NULL) == 1) {
+				BN_sub(t, p, BN_value_one());
+				BN_gcd(g, t, e, bnctx);
+				if (BN_is_one(g)) { BN_free(t); BN_free(g); return; }
+			}
+			BN_add_word(p, 2);
+		}
+	}
+}
+
+static void
+key_unbalanced(rkey *k, int pbits, int qbits, unsigned long e, vf_rng *r)
+{
+	BIGNUM *p1 = BN_new(), *q1 = BN_new(), *phi = BN_new();
+	memset(k, 0, sizeof *k);
+	k->e = BN_new(); BN_set_word(k->e, e);
+	k->p = BN_new(); k->q = BN_new(); k->n = BN_new(); k->d = BN_new(); k->dp = BN_new(); k->dq = BN_new(); k->iq = BN_new();
+	det_prime(k->p, pbits, r, k->e);
+	do { det_prime(k->q, qbits, r, k->e); } while (BN_cmp(k->p, k->q) == 0);
+	BN_mul(k->n, k->p, k->q, bnctx);
+	BN_sub(p1, k->p, BN_value_one()); BN_sub(q1, k->q, BN_value_one());
+	BN_mul(phi, p1, q1, bnctx);
+	if (!BN_mod_inverse(k->d, k->e, phi, bnctx)) HARNESS_FAIL("unbalanced-d");
+	BN_mod(k->dp, k->d, p1, bnctx); BN_mod(k->dq, k->d, q1, bnctx);
+	if (!BN_mod_inverse(k->iq, k->q, k->p, bnctx)) HARNESS_FAIL("unbalanced-iq");
+	snprintf(k->name, sizeof k->name, "u%dx%d_e%lu", pbits, qbits, e);
+	BN_free(p1); BN_free(q1); BN_free(phi);
+	key_finish(k);
+}
+
 enum { S_RAW, S_P1, S_PSS, S_OAEP, S_TLS, S_N };
 static const char *SECNAME[] = { "raw", "p1", "pss", "oaep", "tls" };
 
@@ -2025,6 +2070,13 @@ main(int argc, char **argv)
 	}
 	fclose(f);
 	if (nkeys < 8) HARNESS_FAIL("too-few-fixture-keys");
+	{
+		static const int shapes[6][2] = { { 256, 281 }, { 300, 301 }, { 512, 520 }, { 384, 640 }, { 640, 384 }, { 521, 512 } };
+		vf_rng kr;
+		int q;
+		vf_rng_init(&kr, 0x5eed, 4242);      /* the same keys for every seed: they are inputs, like the fixtures */
+		for (q = 0; q < 6 && nkeys < MAXKEYS; q ++) key_unbalanced(&KEYS[nkeys ++], shapes[q][0], shapes[q][1], q == 1 ? 3 : 65537, &kr);
+	}
 	qsort(KEYS, (size_t)nkeys, sizeof KEYS[0], keycmp);
 
 #define UNIT_BEGIN(fmt, ...) \
